@@ -94,6 +94,11 @@ def case(draw, tier="quick"):
     # the executing update carries a *different* book
     atb2, atl2 = draw(gen.book_side_pair(nt, max(3, min(nt - 4, mid + draw(st.integers(-6, 6)))), max_levels=4))
     steps.append({"dt": 1000, "k": "book", "rc": [{"r": ri, "atb": atb2, "atl": atl2}]})
+    if draw(st.integers(0, 2)) == 0:
+        # the executing update also reports traded volume around the limit: whatever the order does not take on
+        # arrival is offered this volume in the same cycle (a killed fill-or-kill order must not take any of it)
+        steps[-1]["rc"][-1]["trd"] = [[max(0, min(nt - 1, tick + draw(st.integers(-2, 2)))), gen.size_c(draw, 2, 20000) / 100]
+                                       for _ in range(draw(st.integers(1, 2)))]
     if ri == 0 and draw(st.integers(0, 4)) == 0:
         # starting-price market: the market turns in-play and the starting price is reconciled while the order may
         # still rest (keep-in-play orders survive the turn): a LIMIT order is never converted to a starting-price bet
@@ -149,6 +154,7 @@ def check(sc):
     target = (spec["runners"][ri]["id"], spec["runners"][ri].get("hc", 0))
     # book prevailing before the executing update (update index 2; 3 when the non-runner update precedes it)
     snap = r.updates[2 if shared_package else 1].books[ri]
+    snap_pt = r.updates[2 if shared_package else 1].pt
     book = snap["atb"] if side == "BACK" else snap["atl"]  # [(price, size)] best first
     level = {p: s for p, s in book}
     best = book[0][0] if book else None
@@ -195,8 +201,14 @@ def check(sc):
             frs = o["matched"]
             if first_ack is None:
                 first_ack = where
-                arrival_n = len(frs)
-                arrival = frs
+                # fragments stamped with the time of the book the placement was executed against are the arrival
+                # fills; anything else in this first acknowledged snapshot was gained passively in the same cycle
+                arrival = [f for f in frs if f[0] == snap_pt]
+                arrival_n = len(arrival)
+                if frs[:arrival_n] != arrival:
+                    arrival_n, arrival = len(frs), frs  # (not separable: judge all as arrival fills)
+                elif len(frs) > arrival_n:
+                    classes.add("passive-fill-in-the-arrival-cycle")
                 # ---- arrival clauses
                 if not fok:
                     for pt, p, s in arrival:
